@@ -68,8 +68,8 @@ fn all_shapes() -> Vec<Shape> {
 impl HistoryCheck {
     pub fn new(thorough: bool) -> Self {
         let mut profile = Profile::base(if thorough { 24 } else { 14 }).with_apis(&all_shapes(), 6, 1);
-        profile.pct_wide = 1;
-        profile.permille_huge = 0;
+        profile.pct_wide = 2;
+        profile.permille_huge = 1;
         HistoryCheck {
             profile,
             max_actions: if thorough { 300 } else { 150 },
@@ -447,10 +447,10 @@ fn shared_shapes() -> Vec<Shape> {
 impl MultiCheck {
     pub fn new(thorough: bool) -> Self {
         let mut profile = Profile::base(if thorough { 24 } else { 14 }).with_apis(&shared_shapes(), 6, 1);
-        profile.pct_wide = 1;
+        profile.pct_wide = 2;
         profile.pct_medium = 30;
         profile.fan_den = 3;
-        profile.permille_huge = 0;
+        profile.permille_huge = 1;
         MultiCheck {
             profile,
             max_actions: if thorough { 500 } else { 250 },
